@@ -27,6 +27,8 @@ type Config struct {
 	NoImports    bool
 	CustomOpts   bool // place generated custom options (schema o/opts.proto) on elements
 	CustomOptPct int  // probability per element (default 35)
+	// PrototextSafe keeps message-literal spellings within what Go's prototext accepts (see options.go).
+	PrototextSafe bool
 	// SinglePackage forces every file into one package.
 	SinglePackage bool
 	// Relative, if set, is asked for the source spelling of each reference
@@ -464,7 +466,13 @@ func (b *builder) fields(f *File, m *Message) {
 			m.ExtRanges = append(m.ExtRanges, Range{lo + 1000, MaxField})
 		}
 		b.extNext[m.FQN] = lo
-		m.ExtRangeOpts = b.addCustom(f, "ext_range", m.FQN)
+		if !b.cfg.NoOptions && b.pct(35, "extverif") {
+			m.ExtRangeOpts = append(m.ExtRangeOpts, Opt{Name: "verification", Value: "UNVERIFIED", Set: setOpt(func(o *descriptorpb.ExtensionRangeOptions) {
+				o.Verification = descriptorpb.ExtensionRangeOptions_UNVERIFIED.Enum()
+			})})
+		}
+		m.ExtRangeOpts = append(m.ExtRangeOpts, b.addCustom(f, "ext_range", m.FQN)...)
+		m.ExtSplit = b.pct(40, "extsplit")
 	}
 	if b.pct(20, "mres") {
 		lo := num + 20
